@@ -84,7 +84,6 @@ class TheCheck(HarrCheck):
         "comparison, relocated copy observed through a second handle after every operation, ASan)",
         "hand model of qhasharr.c validated on the explored histories only; slot layout regenerated from the header (translator/harr_layout.py)",
         "slot.count/usedslots/num modelled unbounded (exact while no home carries more than 32767 keys and maxslots < 2^31)",
-        "remove_by_idx requires 0 <= idx < maxslots (not checked by the code; the model answers Fault.oob; not generated)",
     ]
 
     def judge_history(self, ops, impl_lines):
